@@ -290,7 +290,17 @@ class Ctx:
             if fid in self.known:
                 r, m = self.eng.check_sat(p.pc + [neg, pred])
                 if r == "sat":
-                    self.known_hits.append((fid, self.known[fid], self._describe(p, m)))
+                    d = self._describe(p, m)
+                    ok = None
+                    if self.native is not None and not self.adversarial:
+                        no = self.native.run_cases([self.native_case(p, m)])[0]
+                        ok = None if no["status"] == "map-failed" else self.outcomes_agree(self.model_outcome(p, m), no)
+                    d["replayed"] = ok
+                    if ok is False:
+                        d["violated"] = "known finding %s did not reproduce natively" % fid
+                        self.unconfirmed.append(d)
+                    else:
+                        self.known_hits.append((fid, self.known[fid], d))
                 elif r == "unknown":
                     self.inconclusive.append("%s/%s: solver unknown (known-finding probe)" % (self.name, what))
                 excl.append(z3.Not(pred))
